@@ -313,3 +313,94 @@ def build5(m):
         # the match object is older than anything process_emphasis allocates: its end is untouched
         'process_emphasis(string, i, delimiters, matches)': [('__assert__', 'some(match)._end == g_end')],
     }
+
+
+def build6(m):
+    """Reference lookup of the inline scanner (C07, C01, C19): match_link_label, get_link_label and
+    match_link_image are verified on their real bodies.  A reference resolves to exactly the entry
+    that the footnote table holds under the normalised label (the table itself is first-wins by
+    Footnote.append_footnotes#firstwins), and to nothing when there is no document root."""
+    MO = TRef('MatchObj')
+    ROOT = TRef('RootDoc')
+    SPAN3 = TTuple([INT, INT, STR])
+    REF2 = TTuple([STR, STR])
+    m.classes.setdefault('RootDoc', {'footnotes': TDict(STR, REF2)})
+    if 'norm_label' not in m.ufuncs:
+        m.ufunc('norm_label', [STR], STR)
+    ns = m.namespaces[MOD]
+    ns['match_link_label'] = ('func', MOD + ':match_link_label')
+    ns['get_link_label'] = ('func', MOD + ':get_link_label')
+    if 'mistletoe.core_tokens:normalize_label#uf' not in m.contracts:
+        m.add(Contract('mistletoe.core_tokens:normalize_label#uf', [('text', STR)], returns=STR, trusted=True, pure=True,
+                       ensures=['result == norm_label(text)']))
+    ns['normalize_label'] = ('func', 'mistletoe.core_tokens:normalize_label#uf')
+    # the fields tuple of a MatchObj (varargs) as three ghost fields
+    m.classes['MatchObj'].update({'dest_type': STR, 'title_delimiter': TOpt(STR), 'label': STR,
+                                  '_f1': SPAN3, '_f2': TOpt(SPAN3), '_f3': TOpt(SPAN3)})
+    c = m.contracts[MOD + ':MatchObj.__init__#1']
+    c.params = [('self', MO), ('start', INT), ('end', INT), ('f1', SPAN3), ('f2', TOpt(SPAN3), NONE_VAL), ('f3', TOpt(SPAN3), NONE_VAL)]
+    c.ensures = ['self._start == start', 'self._end == end', 'self._f1 == f1', 'same(self._f2, f2)', 'same(self._f3, f3)']
+    c.modifies = ['self._start', 'self._end', 'self._f1', 'self._f2', 'self._f3']
+    c.note = ('MatchObj(start, end, *fields) stores its arguments; the varargs tuple `fields` is modelled as the three '
+              'ghost fields _f1, _f2, _f3 (every call site passes one or three (start, end, text) triples)')
+    NEWF = ['N:MatchObj.type', 'N:MatchObj.delimiter', 'N:MatchObj._start', 'N:MatchObj._end', 'N:MatchObj.dest_type',
+            'N:MatchObj.title_delimiter', 'N:MatchObj.label', 'N:MatchObj._f1', 'N:MatchObj._f2', 'N:MatchObj._f3']
+    for k in (MOD + ':process_emphasis', MOD + ':find_link_image', MOD + ':find_core_tokens', MOD + ':match_link_image'):
+        cc = m.contracts[k]
+        cc.modifies = [x for x in cc.modifies if not x.startswith('N:MatchObj.')] + NEWF
+    for k in (MOD + ':find_link_image', MOD + ':find_core_tokens', MOD + ':match_link_image'):
+        cc = m.contracts[k]
+        cc.params = [(p[0], TOpt(ROOT)) + tuple(p[2:]) if p[0] == 'root' else p for p in cc.params]
+
+    TABLE = 'some(root).footnotes'
+    m.add(Contract(MOD + ':get_link_label', [('text', STR), ('root', TOpt(ROOT))], returns=TOpt(REF2), pure=True,
+                   ensures=[
+                       # a hit is the table entry under the normalised text; without a root nothing resolves
+                       ('implies(not is_none(result), not is_none(root) and norm_label(text) in %s and '
+                        'some(result) == %s[norm_label(text)])' % (TABLE, TABLE), 'C07'),
+                       # a bracket-free, non-blank text that is defined does resolve (position independence:
+                       # the answer depends on the table and the text only)
+                       ("implies(not is_none(root) and forall(lambda k: text[k] != '[' and text[k] != ']', 0, len(text)) and text.strip() != '' "
+                        'and norm_label(text) in %s, not is_none(result))' % TABLE, 'C07'),
+                   ],
+                   loops={0: Loop(invariant=[])}, prop=['C01', 'C07']))
+    LBL = TTuple([SPAN3, REF2])
+    m.add(Contract(MOD + ':match_link_label', [('string', STR), ('offset', INT), ('root', TOpt(ROOT), NONE_VAL)],
+                   returns=TOpt(LBL), pure=True,
+                   # call-site fact (follows(string, offset - 1, '[')): the scan starts on the opening bracket
+                   requires=['0 <= offset', 'offset < len(string)', "string[offset] == '['"],
+                   ensures=[
+                       'implies(not is_none(result), some(result)[0][0] == offset and offset + 1 < some(result)[0][1] '
+                       'and some(result)[0][1] <= len(string))',
+                       "implies(not is_none(result), string[some(result)[0][1] - 1] == ']' and "
+                       'some(result)[0][2] == string[offset + 1:some(result)[0][1] - 1])',
+                       ('implies(not is_none(result), not is_none(root) and norm_label(some(result)[0][2]) in %s and '
+                        'some(result)[1] == %s[norm_label(some(result)[0][2])])' % (TABLE, TABLE), 'C07'),
+                   ],
+                   loops={0: Loop(invariant=['implies(_k0 == 0, start == -1 and not escaped)',
+                                             'implies(_k0 >= 1, start == offset)', 'end == -1'])},
+                   prop=['C01', 'C07', 'C19']))
+    c = m.contracts[MOD + ':match_link_image']
+    c.trusted = False
+    c.note = 'verified; MatchObj.__init__ stores its arguments (ghost fields for the varargs tuple)'
+    c.requires = ['0 <= offset', 'offset < len(string)', 'DELIM_OK(delimiter)']
+    TEXT = 'string[delimiter.start + delimiter.number:offset]'
+    R = 'some(result)'
+    c.ensures = [
+        'implies(not is_none(result), offset < %s._end and %s._end <= len(string))' % (R, R),
+        'implies(not is_none(result), is_fresh(result) and %s._start == delimiter.start and %s._f1[2] == %s)' % (R, R, TEXT),
+        # C07: a reference link/image carries exactly the table entry of its normalised label ...
+        ("implies(not is_none(result) and (%s.dest_type == 'shortcut' or %s.dest_type == 'collapsed'), "
+         'not is_none(root) and norm_label(%s) in %s and some(%s._f2)[2] == %s[norm_label(%s)][0] and '
+         'some(%s._f3)[2] == %s[norm_label(%s)][1])' % (R, R, TEXT, TABLE, R, TABLE, TEXT, R, TABLE, TEXT), 'C07'),
+        ("implies(not is_none(result) and %s.dest_type == 'full', "
+         'not is_none(root) and norm_label(%s.label) in %s and some(%s._f2)[2] == %s[norm_label(%s.label)][0] and '
+         'some(%s._f3)[2] == %s[norm_label(%s.label)][1])' % (R, R, TABLE, R, TABLE, R, R, TABLE, R), 'C07'),
+        # ... and every match is of one of the five kinds: without a table only inline links exist
+        ("implies(not is_none(result), %s.dest_type == 'uri' or %s.dest_type == 'angle_uri' or %s.dest_type == 'full' "
+         "or %s.dest_type == 'collapsed' or %s.dest_type == 'shortcut')" % (R, R, R, R, R), 'C07'),
+        ("implies(not is_none(result) and is_none(root), %s.dest_type == 'uri' or %s.dest_type == 'angle_uri')" % (R, R), 'C07'),
+    ]
+    c.modifies = NEWF
+    c.body_types = {'match_info': TOpt(SPAN3)}
+    c.prop = ['C01', 'C07', 'C19']
